@@ -5,7 +5,8 @@ from vlib import Case, hx
 
 HARNESS = "sim_driver"
 LEAN_MODULES = ["ViaProofs.C04"]
-REQUIRED_THEOREMS = []
+LEMMA_MODULES = ['ViaProofs.ConnLemmas', 'ViaProofs.C13', 'ViaProofs.C08']
+REQUIRED_THEOREMS = ['Via.C04_head_shape', 'Via.C04_refused', 'Via.C04_framing_added', 'Via.C04_no_framing_when_no_content', 'Via.C04_chunk_wire', 'Via.C04_chunk_header_parses']
 LEVEL = "proof"
 TRUSTED_BASE = S.SIM_TRUSTED
 ASSUMPTIONS = S.SIM_ASSUMPTIONS
